@@ -226,7 +226,8 @@ namespace fs
             }
             iterator end() const
             {
-                if (split->small_note) // small note have no aligned parts, but apbegin > apend (means empty)
+                if (split->small_note || // small note have no aligned parts, but apbegin > apend (means empty)
+                    split->apbegin > split->apend) // so does an empty range at an unaligned offset (its small_note is empty, i.e. false)
                     return iterator(split, split->apbegin); // therefore, end() should return apbegin for range-based loop
                 return iterator(split, split->apend);
             }
